@@ -16,6 +16,8 @@ OBLIGATIONS = [
     "SkVerif.C02.abs_eq_cutoff_add",
     "SkVerif.C02.rel_abs_roundtrip",
     "SkVerif.C02.abs_rel_roundtrip",
+    "SkVerif.C02.derived_absolute_relative_to_other_cutoff",
+    "SkVerif.C02.derived_absolute_indexer_from_other_cutoff",
     "SkVerif.C02.insample_outsample_partition",
     "SkVerif.C02.insample_eq_filter",
     "SkVerif.C02.outsample_eq_filter",
@@ -98,8 +100,18 @@ def to_line(c):
         r = "floats:" + show_rats([Fraction(a, b) for a, b in raw[1]])
     else:
         r = k
-    return "C02 all %s %s %s %s %d %s" % (r, show_bool(c["rel"]), show_bool(c["rib"]),
-                                         "none" if c["cut"] is None else str(c["cut"]), c["start"], show_bool(c["enf"]))
+    return "C02 all %s %s %s %s %d %s %s" % (r, show_bool(c["rel"]), show_bool(c["rib"]),
+                                            "none" if c["cut"] is None else str(c["cut"]), c["start"], show_bool(c["enf"]),
+                                            "none" if _cut2(c) is None else str(_cut2(c)))
+
+
+def _cut2(c):
+    """the OTHER cutoff at which the objects derived with c["cut"] are used"""
+    if c["cut"] is None:
+        return None
+    if "cut2" in c:
+        return c["cut2"]
+    return c["cut"] + [5, -3, 1, -1, 12, -7][(abs(c["cut"]) + c["start"]) % 6]
 
 
 def _fh_str(fh):
@@ -159,6 +171,18 @@ def run_real(c):
         "chk=" + _try(lambda: check_fh(fh, enforce_relative=c["enf"]), _fh_str),
         "rt=" + _try(lambda: fh.to_absolute(cut).to_relative(cut), _fh_str),
         "rt2=" + _try(lambda: fh.to_relative(cut).to_absolute(cut), _fh_str),
+    ]
+    # horizons DERIVED with one cutoff are ordinary horizons: used with ANOTHER cutoff they answer for that one
+    c2 = _cut2(c)
+    da = lambda: fh.to_absolute(cut)
+    parts += [
+        "drel=" + _try(lambda: da().to_relative(c2), _fh_str),
+        "dabs=" + _try(lambda: fh.to_relative(cut).to_absolute(c2), _fh_str),
+        "didx=" + _try(lambda: da().to_indexer(c2), lambda i: show_ints([int(v) for v in i])),
+        "dins=" + _try(lambda: da().to_in_sample(c2), _fh_str),
+        "doos=" + _try(lambda: da().to_out_of_sample(c2), _fh_str),
+        "dallin=" + _try(lambda: da().is_all_in_sample(c2), lambda b: show_bool(bool(b))),
+        "dallout=" + _try(lambda: da().is_all_out_of_sample(c2), lambda b: show_bool(bool(b))),
     ]
     return " ".join(parts)
 
@@ -223,6 +247,19 @@ def oracle(c, out):
             fails.append((site + ":roundtrip-rel-abs", "rt2=%s expected %r" % (d["rt2"], abssteps)))
         if _pfh(d["absint"]) != ([a - c["start"] for a in abssteps], False):
             fails.append((site + ":to_absolute_int", "absint=%s" % d["absint"]))
+        # derived objects at another cutoff: absolute time points stay, relative steps are seen from the new cutoff
+        c2 = _cut2(c)
+        rel2 = [a - c2 for a in abssteps]
+        if _pfh(d["drel"]) != (rel2, True):
+            fails.append((site + ":derived-absolute:to_relative-other-cutoff", "cutoff %d then %d: drel=%s expected %r" % (cut, c2, d["drel"], rel2)))
+        if _pfh(d["dabs"]) != ([c2 + r for r in relsteps], False):
+            fails.append((site + ":derived-relative:to_absolute-other-cutoff", "cutoff %d then %d: dabs=%s" % (cut, c2, d["dabs"])))
+        if d["didx"] != show_ints([r - 1 for r in rel2]):
+            fails.append((site + ":derived-absolute:to_indexer-other-cutoff", "cutoff %d then %d: didx=%s expected steps-1 of %r" % (cut, c2, d["didx"], rel2)))
+        if _pfh(d["dins"]) != ([a for a, r in zip(abssteps, rel2) if r <= 0], False) or _pfh(d["doos"]) != ([a for a, r in zip(abssteps, rel2) if r > 0], False):
+            fails.append((site + ":derived-absolute:partition-other-cutoff", "cutoff %d then %d: dins=%s doos=%s" % (cut, c2, d["dins"], d["doos"])))
+        if d["dallin"] != show_bool(all(r <= 0 for r in rel2)) or d["dallout"] != show_bool(all(r > 0 for r in rel2)):
+            fails.append((site + ":derived-absolute:predicates-other-cutoff", "cutoff %d then %d: dallin=%s dallout=%s" % (cut, c2, d["dallin"], d["dallout"])))
     elif c["rel"]:
         relsteps = steps
     else:
